@@ -84,9 +84,10 @@ class Sess:
         asyncio.new_event_loop().run_until_complete(go())
         self._absorb()
 
-    def settle(self, limit=60):
+    def settle(self, limit=80, per_iteration=25):
+        # Peer._main uses 25 routes per iteration, or 1 when the neighbor has a rate limit
         for _ in range(limit):
-            self.step(25)
+            self.step(per_iteration)
             if not self.new_routes and not self.peer.neighbor.rib.outgoing.pending() and not self.send_eor:
                 return True
         return False
@@ -109,10 +110,10 @@ def apply(rib, op):
         rib.del_from_rib(route(P[op[1]], None))
 
 
-def one_case(before_ops, cut, down_ops):
+def one_case(before_ops, cut, down_ops, per_iteration=25):
     """before_ops: API operations issued on an established session; the session then sends `cut` messages and drops;
     down_ops are issued while it is down; then it is re-established"""
-    inp = {'before': [list(o) for o in before_ops], 'cut_after_messages': cut, 'while_down': [list(o) for o in down_ops]}
+    inp = {'before': [list(o) for o in before_ops], 'cut_after_messages': cut, 'while_down': [list(o) for o in down_ops], 'routes_per_iteration': per_iteration}
     # building the world and the first session is harness set-up: if it fails the CHECK is broken (exception
     # propagates -> checker crash), it is never reported as a violation of the property
     w = c17.World(dict(routes={'A': 10}, hold=180))  # one configured route: 10.0.1.0/24 med 10
@@ -130,7 +131,7 @@ def one_case(before_ops, cut, down_ops):
         for op in down_ops:
             apply(rib, op)
         s.up()
-        if not s.settle():
+        if not s.settle(per_iteration=per_iteration):
             return {'what': 'the new session never settles (updates keep being generated or End-of-RIB never sent)', 'input': inp}
     except Exception as e:  # noqa
         import traceback
@@ -156,12 +157,9 @@ def one_case(before_ops, cut, down_ops):
     fams = sorted((int(a), int(b)) for a, b in s.neg.families)
     if sorted(s.table.eor) != fams:
         return {'what': f'End-of-RIB markers {sorted(s.table.eor)} do not cover the negotiated families {fams} exactly once', 'input': inp}
-    first_e = s.order.index('E') if 'E' in s.order else -1
-    n_initial = len(want)
-    if 'U' in s.order[first_e:]:
-        # UPDATEs after the End-of-RIB are fine only if they are not part of the initial table transfer
-        pass
-    if first_e != -1 and first_e < min(n_initial, s.order.count('U')) and s.order[:first_e].count('U') < s.order.count('U'):
+    # nothing happens after the re-establishment in these histories, so every UPDATE of the new session belongs to the
+    # table transfer: none may follow the first End-of-RIB
+    if 'E' in s.order and 'U' in s.order[s.order.index('E') :]:
         return {'what': f'End-of-RIB sent before the complete Adj-RIB-Out was re-advertised (wire order {"".join(s.order)})', 'input': inp}
     return None
 
@@ -181,25 +179,26 @@ def loss_at_every_cut(tier, seed):
                 for m in range(0, 2 if tier == 'quick' else 3):
                     for down in itertools.product(OPS, repeat=m):
                         cases.append((before, cut, down))
-    if tier == 'quick' and len(cases) > 700:
+    if tier == 'quick' and len(cases) > 400:
         rnd.shuffle(cases)
-        cases = cases[:700]
+        cases = cases[:400]
     for before, cut, down in cases:
-        evals += 1
-        distinct.add((before, cut, down))
-        f = one_case(before, cut, down)
-        if f:
-            fails.append(f)
+        for per_iteration in (25, 1):
+            evals += 1
+            distinct.add((before, cut, down, per_iteration))
+            f = one_case(before, cut, down, per_iteration)
+            if f:
+                fails.append(f)
         if len(samples) < 3 and len(before) == 2 and down:
             samples.append({'before': [list(o) for o in before], 'cut_after_messages': cut, 'while_down': [list(o) for o in down]})
     fails.sort(key=lambda f: len(str(f['input'])))
-    return {'evaluations': evals, 'distinct_nontrivial': len(distinct), 'bound': f'API histories of length <= {depth} over 6 operations (3 prefixes, attribute change, withdraw of an API route and of the configured route) x session loss after 0..n+1 sent messages x <= {1 if tier == "quick" else 2} operations while down' + (' (sample of 700)' if tier == 'quick' else ''), 'rule': 'one case = (history before the loss, cut point, operations while down); distinct by value', 'samples': samples, 'failures': fails}
+    return {'evaluations': evals, 'distinct_nontrivial': len(distinct), 'bound': f'API histories of length <= {depth} over 6 operations (3 prefixes, attribute change, withdraw of an API route and of the configured route) x session loss after 0..n+1 sent messages x {25, 1} routes per loop iteration x <= {1 if tier == "quick" else 2} operations while down' + (' (sample of 700)' if tier == 'quick' else ''), 'rule': 'one case = (history before the loss, cut point, operations while down); distinct by value', 'samples': samples, 'failures': fails}
 
 
 @replayer('C11', 'loss-at-every-cut')
 def _replay(f):
     i = f['input']
-    return one_case([tuple(o) for o in i['before']], i['cut_after_messages'], [tuple(o) for o in i['while_down']]) is None
+    return one_case([tuple(o) for o in i['before']], i['cut_after_messages'], [tuple(o) for o in i['while_down']], i.get('routes_per_iteration', 25)) is None
 
 
 # ------------------------------------------------------------------------------------------------ harness canaries
